@@ -360,4 +360,102 @@ def allRuns : List (String × Bool × String) :=
 
 end CollDemo
 
+/-! ## Reserved names
+
+A feature declared as `self` / `type` is stored as `self_` / `type_` with `reserved = true` (`createFeature`); the writer
+emits it as the attribute / child element `self` / `type`, the reader renames it back.  `ResOk` (`Spec/RoundTrip.lean`)
+admits such features in the fragment; here the round trip is evaluated on the model for every kind of range: each of
+the 22 features of the demo type `x.Doc` (primitive, reference, the inlined and the shared collections — the two
+StringArray features `sa` / `msa` and the StringList `sl` are written as child elements) in turn takes the place of the
+reserved feature `self_`, then of `type_`.  Every run evaluates to `(true, ok [])`: the test accepts, nothing differs.
+A type system made with `createFeature … "self" …` / `… "type" …` is evaluated as well (`viaCreate`). -/
+
+namespace ResDemo
+open CollDemo
+
+/-- `x.Doc` with the feature `n` stored as `createFeature` stores a feature declared as `self` / `type`:
+    under the name `stored` (`self_` / `type_`), `reserved = true` -/
+def resRec (n stored : String) : TypeRec :=
+  { docRec with own := docRec.own.map (fun f => if f.name == n then { f with name := stored, reserved := true } else f) }
+
+def resTs (n stored : String) : TypeSystem :=
+  { Gen.builtinTS with types := Gen.builtinTS.types ++ [resRec n stored] }
+
+/-- the demo heap with the slot `n` of the `x.Doc` structures under the stored name -/
+def resHp (n stored : String) : Heap :=
+  hp.map (fun o =>
+    if o.ty == "x.Doc" then { o with slots := o.slots.map (fun p => if p.1 == n then (stored, p.2) else p) } else o)
+
+def run (n stored : String) : Bool × Except Err (List (Int × Option String)) :=
+  (collAppliesB K (resTs n stored) [cas] 0 (resHp n stored), roundTripDiffs K (resTs n stored) [cas] 0 (resHp n stored) 0 1)
+
+/-- a type system made with `createFeature`: `self` an integer, `type` a StringArray (child elements `type`), `peer` a
+    reference; `createFeature` stores `self_` / `type_` with `reserved = true` (third component) -/
+def tsC : TypeSystem :=
+  match (do
+    let ts ← createType K Gen.builtinTS "x.R" ANNOTATION none
+    let ts ← createFeature ts "x.R" "self" "uima.cas.Integer"
+    let ts ← createFeature ts "x.R" "type" "uima.cas.StringArray"
+    createFeature ts "x.R" "peer" "x.R") with
+  | .ok ts => ts
+  | .error _ => Gen.builtinTS
+
+def hpC : Heap :=
+  [ { ty := "x.R", ts := 0, xid := some 2, slots :=
+        [("self_", .int 7), ("type_", .ref 2), ("peer", .ref 1)] ++ tailSlots 0 2 },
+    { ty := "x.R", ts := 0, xid := none, slots := [("self_", .none), ("type_", .none), ("peer", .ref 0)] ++ tailSlots 2 3 },
+    arr "uima.cas.StringArray" (.strs [some "a b", none, some "c"]) ]
+
+def casC : Cas :=
+  { cas with views := cas.views.map (fun nv => (nv.1, { nv.2 with idx := [("x.R", [{ b := 0, e := 2, oid := 0 }])] })) }
+
+/-- (test, differences, the own features of `x.R` as stored, the written attributes and child elements of the first
+    structure) -/
+def viaCreate : Bool × Except Err (List (Int × Option String)) × List (String × Bool) ×
+    Option (List (String × String) × List (String × Option String)) :=
+  (collAppliesB K tsC [casC] 0 hpC, roundTripDiffs K tsC [casC] 0 hpC 0 1,
+   ((find? tsC "x.R").map (fun t => t.own.map (fun f => (f.name, f.reserved)))).getD [],
+   match saveXmi K tsC [casC] 0 hpC with
+   | .ok (doc, _) => (doc[1]?).map (fun e => (e.attrs, e.kids))
+   | .error _ => none)
+
+/-- a flat instance (for `xmi_roundtrip_flat` / `rtAppliesB`): `x.F` with the reserved features `self_` (an integer)
+    and `type_` (a reference), as `createFeature` stores them -/
+def flatRec : TypeRec :=
+  { name := "x.F", super := some ANNOTATION,
+    own := [ { name := "self_", domain := "x.F", range := "uima.cas.Integer", reserved := true },
+             { name := "type_", domain := "x.F", range := "x.F", reserved := true } ],
+    inh := docRec.inh }
+
+def flatTs : TypeSystem := { Gen.builtinTS with types := Gen.builtinTS.types ++ [flatRec] }
+
+def flatHp : Heap :=
+  [ { ty := "x.F", ts := 0, xid := some 2, slots := [("self_", .int 7), ("type_", .ref 1)] ++ tailSlots 0 2 },
+    { ty := "x.F", ts := 0, xid := none, slots := [("self_", .none), ("type_", .ref 0)] ++ tailSlots 2 3 } ]
+
+def flatCas : Cas :=
+  { cas with views := cas.views.map (fun nv => (nv.1, { nv.2 with idx := [("x.F", [{ b := 0, e := 2, oid := 0 }])] })) }
+
+def showDiffs (r : Except Err (List (Int × Option String))) : String :=
+  match r with
+  | .ok l => s!"ok {l.map (fun (d : Int × Option String) => (d.1, d.2.getD "?"))}"
+  | .error e => s!"error {e}"
+
+/-- every feature of `x.Doc` as `self_` and as `type_` -/
+def allRuns : List (String × String × Bool × String) :=
+  (docRec.own.map (·.name)).flatMap (fun n =>
+    ["self_", "type_"].map (fun stored => (n, stored, (run n stored).1, showDiffs (run n stored).2)))
+
+-- 44 runs, each `(feature, stored name, true, "ok []")`:
+#eval allRuns
+#eval allRuns.all (fun r => r.2.2.1 && r.2.2.2 == "ok []")          -- true
+-- (true, ok [], [("self_", true), ("type_", true), ("peer", false)],
+--  attributes xmi:id="2" self="7" peer="3" begin="0" end="3" sofa="1", children <type>a b</type><type/><type>c</type>):
+#eval (viaCreate.1, showDiffs viaCreate.2.1, viaCreate.2.2.1, viaCreate.2.2.2)
+-- the flat instance: (true, true, "ok []")
+#eval (rtAppliesB K flatTs [flatCas] 0 flatHp, collAppliesB K flatTs [flatCas] 0 flatHp,
+  showDiffs (roundTripDiffs K flatTs [flatCas] 0 flatHp 0 1))
+
+end ResDemo
+
 end Cassis.Xmi
